@@ -178,7 +178,9 @@ def run(rep):
             bl = [n for n in walk(seq["body"]) if n.get("k") == "For" and show(n["iter"]) == "IntoIterator::into_iter(%s)" % b]
             okd = len(bl) == 1
             if okd:
-                names = ("icontext", "context", "group") if b != "regex" else ("iregex_set", "regex_set")
+                import c07 as _c07
+                ctx_names = tuple(r[3] for r in _c07.lockstep_roles(F).values())  # the two kind vectors that go into the list automata
+                names = (ctx_names + ("group",)) if b != "regex" else ("iregex_set", "regex_set")
                 c = push_counts_any(bl[0]["body"], names)
                 okd = c == {1} or c == {0, 1}  # `if let Pattern::X(s) = i.pattern` is irrefutable for this bucket (LOCKSTEP/bucket-kind)
             rep.check(okd, "MEMBER-ONCE", "MEMBER-ONCE/drain/" + b, bl[0]["sp"] if bl else seq["sp"], "every element of bucket `%s` is moved into a matcher list" % b, "")
